@@ -33,6 +33,7 @@ def run(ctx):
         c05.g_scripts(ctx, FOCUS, "gen_dead_by_fault", "EBB3Link_gen04b.cfg", 2, True)      # core alphabet; every fault kind at every read/write
     else:
         c05.g_scripts(ctx, FOCUS, "gen_dead", "EBB3Link_gen04.cfg", 2, True)
+    c05.g_scripts(ctx, FOCUS, "gen_remembered", "EBB3Link_gen04n.cfg", 3, True)          # learn a name, die, ask again with the name the object holds
     c05.g_scripts(ctx, FOCUS, "gen_notconnected", "EBB3Link_gen04nc.cfg", 1, False)
     c05.g_scripts(ctx, FOCUS, "gen_connect", "EBB3Link_gen15.cfg", 3, False, every=8 if q else 1)
     c05.v_histories(ctx, FOCUS, 150 if q else 5000, 30, 0.12, 4)
